@@ -218,6 +218,45 @@ def view_of_attr(v, selfname, aliases):
     return None
 
 
+def ro_atom(n, selfname):
+    """`self._readonly_` / `self.readonly` -> True; `not …` -> False; else None"""
+    if is_self_attr(n, selfname) and n.attr in ('_readonly_', 'readonly'):
+        return True
+    if isinstance(n, ast.UnaryOp) and isinstance(n.op, ast.Not):
+        v = ro_atom(n.operand, selfname)
+        return None if v is None else (not v)
+    return None
+
+
+def ro_facts(test, selfname, env):
+    """(what the true arm knows about _readonly_, what the false arm knows), each True/False/None"""
+    a = ro_atom(test, selfname)
+    if a is not None:
+        return a, (not a)
+    if isinstance(test, ast.BoolOp) and isinstance(test.op, ast.And):
+        atoms = [(c, ro_atom(c, selfname)) for c in test.values]
+        ro = [v for c, v in atoms if v is not None]
+        if len(ro) == 1:
+            others = [ev3(c, env) for c, v in atoms if v is None]
+            false_arm = (not ro[0]) if all(o is not UNKNOWN and o for o in others) else None
+            return ro[0], false_arm
+    return None, None
+
+
+def consistent(items):
+    """False when the path assumes contradictory values of self._readonly_ with no write to it in between"""
+    known = None
+    for x in items:
+        if x[0] == 'assume':
+            b = x[1][1]
+            if known is not None and known != b:
+                return False
+            known = b
+        elif x[0] == 'ev' and x[1][0] == 'write' and x[1][1] == 'readonly':
+            known = True if x[1][2] == 'setTrue' else None
+    return True
+
+
 def cache_member_test(n, selfname):
     """`'k' in self._cache_` -> 'k'"""
     if (isinstance(n, ast.Compare) and len(n.ops) == 1 and isinstance(n.ops[0], ast.In)
@@ -686,14 +725,23 @@ class Extractor:
                 return [(tout + [('ev', ('cacheDel', k), dsid)], 'fall'), (tout, 'fall')]
         v = ev3(test, env)
         vt = varr_test(test, s)
+        # path sensitivity on self._readonly_: what each arm learns about it (internal `assume` items; contradictory
+        # paths — e.g. require_writable raising after require_writable has passed — are pruned in `consistent`)
+        rt, rf = ro_facts(test, s, env)
         res = []
         if v is UNKNOWN or v:
             pre = tout + ([('ev', ('assumeVarr', vt), sid)] if vt is not None else [])
+            pre = pre + ([('assume', ('ro', rt), sid)] if rt is not None else [])
             res += [(pre + i, s2) for i, s2 in self.walk(f, st.body, env, set(aliases), depth)]
         if v is UNKNOWN or not v:
             pre = tout + ([('ev', ('assumeVarr', not vt), sid)] if vt is not None else [])
+            pre = pre + ([('assume', ('ro', rf), sid)] if rf is not None else [])
             res += [(pre + i, s2) for i, s2 in self.walk(f, st.orelse, env, set(aliases), depth)]
         res = dedupe(res)
+        if rt is not None or rf is not None:
+            stripped = dedupe([([x for x in i if not (x[0] == 'assume' and x[2] == sid)], s2) for i, s2 in res])
+            if len(stripped) == 1:
+                return stripped          # both arms do the same: no need to remember the test
         if vt is not None:
             # the assumption is only worth a path split when the arms differ
             stripped = dedupe([([x for x in i if not (x[0] == 'ev' and x[1][0] == 'assumeVarr' and x[2] == sid)], s2)
@@ -731,14 +779,23 @@ class Extractor:
         ending = [(i, s2) for i, s2 in body if s2 in ('ret', 'raise')]
         orelse = self.walk(f, st.orelse, env, set(aliases), depth) if st.orelse else [([], 'fall')]
         eventful = [i for i, _ in complete if i]
+        # iterations are bracketed by markers so that the segmented form (loops with ANY number of iterations,
+        # `loopTable`) can be recovered from the unrolled path
+        def it(a):
+            return [('mark', ('lb', sid), sid)] + a + [('mark', ('le', sid), sid)]
         seqs = [[]]
         for a in eventful:
-            seqs.append(a)
+            seqs.append(it(a))
         if len(eventful) > 1:
             for a in eventful:
                 for b in eventful:
                     if a is not b:
-                        seqs.append(a + b)
+                        seqs.append(it(a) + it(b))
+        if len(eventful) > 2:
+            allarms = []
+            for a in eventful:
+                allarms += it(a)
+            seqs.append(allarms)
         res = []
         for pre in seqs:
             for oi, os_ in orelse:
@@ -827,7 +884,7 @@ class Extractor:
                         out.append((pi, status))
                 else:
                     out.append((pi, ps))
-        out = dedupe(out)
+        out = dedupe([(i, s2) for i, s2 in out if consistent(i)])
         self.memo[key] = out
         return out
 
@@ -896,7 +953,7 @@ class Extractor:
                     self.failures.append('%s (%s:%d): %s' % (g.qual, f.file, f.node.lineno, e))
                     continue
                 # only the paths that go through the clone
-                plist = [[('mayFill',) if x[0] == 'fill' else x[1] for x in items]
+                plist = [[('mayFill',) if x[0] == 'fill' else x[1] for x in items if x[0] not in ('mark', 'assume')]
                          for items, status in paths if any(x[0] == 'ev' and x[1] == ('call', 'Qube.clone') for x in items)
                          and status == 'ret']
                 tab[g.qual] = {'file': f.file, 'line': f.node.lineno, 'end_line': f.node.end_lineno, 'paths': plist}
@@ -937,7 +994,7 @@ class Extractor:
                     continue
                 plist = []
                 for items, status in paths:
-                    evs = [('mayFill',) if x[0] == 'fill' else x[1] for x in items]
+                    evs = [('mayFill',) if x[0] == 'fill' else x[1] for x in items if x[0] not in ('mark', 'assume')]
                     if any(e[0] in ('write', 'cacheClear', 'cacheDel', 'cacheFreeze') for e in evs) and evs not in plist:
                         plist.append(evs)
                 if plist:
@@ -961,14 +1018,9 @@ class Extractor:
             plist = []
             stmt_events = {}
             for items, status in paths:
-                for x in items:
-                    if x[0] != 'fill' and len(as_chain(x[2])) == 1:
-                        sid = as_chain(x[2])[0]
-                        lst = stmt_events.setdefault(sid, [])
-                        # events of one statement are the same on every path: keep the longest run seen
                 run = {}
                 for x in items:
-                    if x[0] != 'fill' and len(as_chain(x[2])) == 1:
+                    if x[0] == 'ev' and len(as_chain(x[2])) == 1:
                         run.setdefault(as_chain(x[2])[0], []).append(x[1])
                 for sid, evs in run.items():
                     if len(evs) > len(stmt_events.get(sid, [])) or not stmt_events.get(sid):
@@ -979,10 +1031,10 @@ class Extractor:
                         if len(evs) >= len(stmt_events.get(sid, [])):
                             stmt_events[sid] = evs
             for items, status in paths:
-                evs = [('mayFill',) if x[0] == 'fill' else x[1] for x in items]
+                evs = [('mayFill',) if x[0] == 'fill' else x[1] for x in items if x[0] not in ('mark', 'assume')]
                 sig = []
                 for x in items:
-                    if x[0] == 'fill' or x[1] == ('excAt',):
+                    if x[0] in ('fill', 'mark', 'assume') or x[1] == ('excAt',):
                         continue        # the statement that raised is not a landmark: it also runs on normal paths
                     c = as_chain(x[2])
                     if not sig or sig[-1] != c:
@@ -991,9 +1043,10 @@ class Extractor:
                 for x in items:
                     if x[0] == 'fill':
                         slots.append(len(seen))
-                    elif x[1] != ('excAt',):
+                    elif x[0] not in ('mark', 'assume') and x[1] != ('excAt',):
                         seen.add(as_chain(x[2]))
-                plist.append({'events': evs, 'sig': tuple(sig), 'end': status, 'fill_slots': slots})
+                plist.append({'events': evs, 'sig': tuple(sig), 'end': status, 'fill_slots': slots,
+                              'segs': segments(items)})
             public = not (f.name.startswith('_') and not f.name.startswith('__')) and f.name != 'require_writable'
             tab[q] = {'file': f.file, 'line': f.node.lineno, 'end_line': f.node.end_lineno, 'public': public,
                       'paths': plist, 'stmt_events': stmt_events, 'stmt_map': stmt_map(f.node),
@@ -1032,6 +1085,53 @@ def query_functions(root=None):
             lines = [f.node.lineno] + [d.lineno for d in f.node.decorator_list]
             out.append((f.file, name, lines))
     return out
+
+
+def segments(items):
+    """the segmented form of an unrolled path: [(isLoop, [alternative event lists])]; only the OUTERMOST loops become
+    loop segments (loops nested in them, or in callees inlined into them, stay unrolled inside the alternatives)"""
+    segs, straight = [], []
+    depth, cur_lid, body, alts = 0, None, None, None
+
+    def ev(x):
+        return ('mayFill',) if x[0] == 'fill' else x[1]
+    for x in items:
+        if x[0] == 'assume':
+            continue
+        if x[0] == 'mark':
+            kind, lid = x[1]
+            lid = (lid, tuple(as_chain(x[2])))        # the same loop reached through different call sites differs
+            if kind == 'lb':
+                depth += 1
+                if depth == 1:
+                    if alts is not None and cur_lid == lid and not straight:
+                        pass                          # next iteration of the same loop
+                    else:
+                        if alts is not None:
+                            segs.append((True, alts)); alts = None
+                        if straight:
+                            segs.append((False, [straight])); straight = []
+                        alts, cur_lid = [], lid
+                    body = []
+                continue
+            else:
+                depth -= 1
+                if depth == 0:
+                    if body not in alts:
+                        alts.append(body)
+                    body = None
+                continue
+        if depth >= 1:
+            body.append(ev(x))
+        else:
+            if alts is not None:
+                segs.append((True, alts)); alts = None
+            straight.append(ev(x))
+    if alts is not None:
+        segs.append((True, alts))
+    if straight:
+        segs.append((False, [straight]))
+    return segs
 
 
 def as_chain(sid):
@@ -1143,6 +1243,40 @@ def render_lean(tab, failures, root, der=None):
     L.append(']')
     L.append('')
     L.append('def table : Table := publicTable ++ helperTable')
+    L.append('')
+    L.append('/-- the returning paths of the public mutators that contain a loop, in SEGMENTED form: straight pieces and')
+    L.append('    loops (alternative bodies, any number of iterations); the unrolled paths above are expansions of these -/')
+    ln = []
+    for q in sorted(tab):
+        info = tab[q]
+        if not info['public']:
+            continue
+        seen = []
+        for p in info['paths']:
+            if p['end'] != 'ret' or not any(lp for lp, _ in p['segs']):
+                continue
+            key = repr(p['segs'])
+            if key not in seen:
+                seen.append(key)
+        if not seen:
+            continue
+        ident = 'l_' + re.sub(r'\W', '_', q)
+        ln.append((q, ident))
+        L.append('def %s : List (List Seg) := [' % ident)
+        rows = []
+        done = []
+        for p in info['paths']:
+            if p['end'] != 'ret' or not any(lp for lp, _ in p['segs']) or repr(p['segs']) in done:
+                continue
+            done.append(repr(p['segs']))
+            rows.append('  [' + ', '.join('⟨%s, [%s]⟩' % ('true' if lp else 'false',
+                        ', '.join('[' + ', '.join(lean_event(e) for e in alt) + ']' for alt in alts))
+                        for lp, alts in p['segs']) + ']')
+        L.append(',\n'.join(rows))
+        L.append(']')
+    L.append('def loopTable : List (String × List (List Seg)) := [')
+    L.append(',\n'.join('  ("%s", %s)' % (q, i) for q, i in ln))
+    L.append(']')
     L.append('')
     L.append('/-- NEW objects built from `self.clone(retain_cache=True)` (qube.py:1010-1018) and then modified: the paths')
     L.append('    of the new object, whose cache starts as a copy of the original\'s (returning paths through the clone) -/')
